@@ -59,7 +59,7 @@ func moduloScalars(target *CandidateNode, lhs *CandidateNode, rhs *CandidateNode
 		remainder := lhsNum % rhsNum
 
 		target.Tag = lhs.Tag
-		target.Value = fmt.Sprintf(format, remainder)
+		target.Value = formatInt64(format, remainder)
 	} else if (lhsTag == "!!int" || lhsTag == "!!float") && (rhsTag == "!!int" || rhsTag == "!!float") {
 		target.Kind = ScalarNode
 		target.Style = lhs.Style
